@@ -596,7 +596,9 @@ func c11transient(rep *vh.Report, seed uint64, idx int) {
 	}
 	n.writeFlow(rep, r, fam, 0, 5+r.Intn(20), all, -1, false)
 	werrs := []error{errWrite, os.ErrDeadlineExceeded, syscall.EPIPE, io.ErrShortWrite, &net.OpError{Op: "write", Net: "tcp", Err: os.ErrDeadlineExceeded},
-		&net.OpError{Op: "write", Net: "udp", Err: os.NewSyscallError("sendto", syscall.ECONNREFUSED)}, &net.OpError{Op: "write", Net: "udp", Err: syscall.ENOBUFS}}
+		&net.OpError{Op: "write", Net: "udp", Err: os.NewSyscallError("sendto", syscall.ECONNREFUSED)}, &net.OpError{Op: "write", Net: "udp", Err: syscall.ENOBUFS},
+		// a transport that re-dials underneath: one write meets the old, closed connection
+		net.ErrClosed, &net.OpError{Op: "write", Net: "tcp", Err: net.ErrClosed}, fmt.Errorf("redial in progress: %w", net.ErrClosed), io.ErrClosedPipe, io.EOF}
 	werr := werrs[idx%len(werrs)]
 	n.trs[victim].FailWriteAt(n.trs[victim].WriteCalls()+1, werr, false)
 	_ = n.node.WriteMessageAll(&MessageVfUid{Uid: uint64(fam)<<56 | 999}) // the item that meets the failure
